@@ -18,11 +18,12 @@ import hashlib
 from sexp import Sym
 from props import _token_util as U
 from props.c14 import case_tune
+from props import _c13x_names as XN
 
 PROP = "C13"
 READY = True
 DRIVER = "dm_token"
-LEAN_MODULES = ["DaskModel.Props.C13", "DaskModel.Props.C13Fuse"]
+LEAN_MODULES = ["DaskModel.Props.C13", "DaskModel.Props.C13Fuse", "DaskModel.Props.C13xNames"]
 TABLES = ["FusedKeyRenamer"]
 CASE_TIMEOUT_S = 180
 LEVEL_TEXT = ("Lean proof: (i) keys_restored — for every list of operands with arbitrary optimizers, the keys reported after "
@@ -38,15 +39,31 @@ LEVEL_TEXT = ("Lean proof: (i) keys_restored — for every list of operands with
               "cannot be dropped — the 16-bit suffix of the original code violated it; repaired). dask.compute on tuples "
               "of array / bag / delayed / dataframe programs over near-identical inputs (layout aliases, raw NumPy operands, "
               "ufunc where=/out=, from_delayed, read_text, pipelines with long-named steps whose fused names are cut) is "
-              "compared with per-collection compute and NumPy/pandas on every run; the renamer is diffed at function level.")
+              "compared with per-collection compute and NumPy/pandas on every run; the renamer is diffed at function level. "
+              "Extension (Props/C13xNames): (v) the C18 model of utils.key_split is plugged into the renamer (Model/KeyName.renamer): "
+              "key_split_token_stripped — a str or tuple key prefix-token (32 hex characters holding a digit) splits back to "
+              "its prefix (all_letter_token_not_stripped: the digit is needed), renamer_generated — the fused key of generated "
+              "keys is the join of the lower keys' PREFIXES and the full top key, names_with_distinct_tokens_stay_distinct_after_fusion "
+              "— chains whose top keys differ in their tokens get different fused keys; (vi) constructor_names_determine_args / "
+              "constructor_name_iff — for from_array, from_sequence (partition size modelled), bag/array from_delayed, "
+              "delayed(pure=True) leaf and call, elemwise, blockwise, with the argument tuple each hands to tokenize "
+              "(Model/CtorNames): equal names => equal prefix and observably equal arguments (keyword arguments key by key), "
+              "relative to C12 norm_injective and a digest separating the hashed values at hand; per-constructor corollaries "
+              "read the tuple back into the parameters. Tied: key_split and the renamer (key_split by the model) diffed on "
+              "generated keys; for every constructor the tokenize call captured during the real construction is diffed position "
+              "by position against the model's tuple, the whole name bit for bit.")
 LEVEL_NOTE = ("inherits C12's trusted base (md5 separates the values compared, pickle atoms); the optimiser passes between "
               "merge and execution are validated end to end (C09/C10/C43), the graphs are abstract (task = dependencies + "
-              "function); utils.key_split is not modelled (its results are supplied by the harness from the real function); "
+              "function); utils.key_split: the ASCII model of C18 (str.isalpha of the source is Unicode aware) — in section "
+              "`fusedkey` its results come from the real function, in `fusedkey2` from the model; opaque constructor arguments "
+              "(functions, locks, dtypes, other collections) enter the name model as what normalize_token makes of them; "
               "fuse_linear_task_spec itself is exercised on graphs of several chains, not modelled here (C09).")
 TECHNIQUE = "Lean 4 proof (induction on fuel / on the operand list, permutation + sortedness argument for the key order) + differential correspondence"
 ASSUMPTIONS = ["toolz.groupby returns groups in first-seen order with members in original order (diffed)",
                "toolz.merge / HighLevelGraph.merge: later graphs win on shared keys",
-               "md5 of the full joined name separates the fused chains of one graph (like tokens separate inputs)"]
+               "md5 of the full joined name separates the fused chains of one graph (like tokens separate inputs)",
+               "tokens hold a decimal digit (all but (6/16)^32 of them): only then key_split strips them",
+               "normalize_chunks (C23), dtype inference of elemwise, unify_chunks of blockwise: their results are parameters of the name model"]
 TRUSTED = ["reference evaluation of collection programs in harness/props/c13.py (NumPy / pandas / plain Python)"]
 
 
@@ -478,6 +495,7 @@ def _step(c, prev=0):
 
 
 CASES = {"together": case_together, "merge": case_merge, "tune": case_tune, "fusedkey": case_fusedkey}
+CASES.update(XN.CASES)
 
 
 # ----------------------------------------------------------------------------------------------
@@ -710,6 +728,7 @@ def generate(ctx):
         a, b, lab = similar_pair(rng)
         progs = [a, b] + [other_prog(rng) for _ in range(rng.choice([0, 1]))]
         yield "merge", {"progs": progs}
+    yield from XN.generate(ctx)      # extension sections (appended last: the streams of the sections above are unchanged)
 
 
 def search(ctx):
